@@ -398,7 +398,12 @@ def execute(spec, ops, workdir, cold, stats=None, log=None):
                 pz = pre["g.pgc"]
                 if pz["sha"] is not None and pz["fresh"] and pz["writer"] and not pz["same"]:
                     w = pz["writer"]
-                    if w["cfg"] != ck:
+                    # "other options" means other EFFECTIVE table options: a writer
+                    # whose effective options equal the reader's (e.g. pglr compile
+                    # --prefer-shifts --prefer-shifts-over-empty vs a default Parser)
+                    # must have written the reader's table, so a difference there is
+                    # not explained by the known finding
+                    if table_options(json.loads(w["cfg"])) != table_options(cfg):
                         wc = cold.get(src, json.loads(w["cfg"]), recs,
                                       probes if json.loads(w["cfg"])["kind"] != "compile" else [])
                         if wc.get("pgc_sha") == pz["sha"]:
@@ -409,7 +414,8 @@ def execute(spec, ops, workdir, cold, stats=None, log=None):
                     w = pz["writer"]
                     if w.get("tainted"):
                         d1 = True
-                    elif w["cfg"] != ck and json.loads(w["cfg"])["kind"] != "compile":
+                    elif json.loads(w["cfg"])["kind"] != "compile" and (
+                            hint_options(json.loads(w["cfg"])) != hint_options(cfg)):
                         wc = cold.get(src, json.loads(w["cfg"]), recs, probes)
                         if wc.get("pgec_sha") == pz["sha"]:
                             d1 = True
@@ -548,6 +554,19 @@ def effective(cfg):
         "ld": (True if lr else False) if ld is None else ld,
         "tables": o.get("tables") or "LALR",
     }
+
+
+def table_options(cfg):
+    """What decides the content of the table a configuration computes."""
+    if cfg["kind"] == "compile":
+        return {"ps": bool(cfg["opts"]["ps"]), "pse": bool(cfg["opts"]["pse"]), "ld": True,
+                "tables": "LALR"}
+    return effective(cfg)
+
+
+def hint_options(cfg):
+    """What decides the content of compiled hints: the table plus the driver."""
+    return [table_options(cfg), cfg["kind"]]
 
 
 def gen_pge(rng, sc, n=3):
